@@ -19,7 +19,7 @@ CHECKS.update({
         level='exploration',
         technique='round-trip property over generated values with constructed lengths around the storage threshold (Hypothesis + atheris/libFuzzer campaigns through fuzz_one_input), strict type/bit equality oracle; single transient I/O fault injection',
         text='Values of every supported kind are built to exact lengths around disk_min_file_size, stored under all pickle protocols with Disk and JSONDisk '
-             'and read back through every accessor; equality is strict (type, IEEE bits, code points, recursive). Unstorable values must raise and leave the old value; with one transient failure in the file write, source stream or open the store must fail or the value come back intact.',
+             'over a key that already holds a near twin of the value (1 for 1.0, 0.0 for -0.0, text for its bytes) and read back through every accessor; equality is strict (type, IEEE bits, code points, recursive). Unstorable values must raise and leave the old value; with one transient failure in the file write, source stream or open the store must fail or the value come back intact.',
         note='JSONDisk is judged on its own contract (objects via JSON, streams raw). Known finding: Deque indexing on JSONDisk (recorded, excluded by construction, counted).',
         ref='3/C01',
     ),
@@ -113,7 +113,7 @@ CHECKS.update({
         level='exploration',
         technique='model-based histories through FanoutCache; differential routing vs. the vendored pinned release, fresh interpreters with other hash seeds, and a committed golden file',
         text='C03-style histories over 1/2/3/8/13 shards are compared with the single-cache model incl. aggregates and per-shard iteration order; key batches are routed here, in three fresh '
-             'interpreters, by the pinned copy and physically (which shard directory received the row); equal-identity key pairs must share a shard; reset()/reload through two handles is compared step by step and in what every shard persists with two handles on an unsharded Cache.',
+             'interpreters, by the pinned copy and physically (which shard directory received the row); equal-identity key pairs must share a shard; reset()/reload through two handles is compared step by step with two handles on an unsharded Cache and with the truth (last reset wins) in what every shard persists, in key encoding across handles and in eviction after a policy reload.',
         note='Routing reference = golden/pinned_diskcache (copy of the pinned commit) and golden/routing.json. Known finding: numeric twins route differently (recorded, excluded by construction).',
         ref='3/C13',
     ),
